@@ -14,6 +14,7 @@ EXTENDS CopyFrom
 Sig(F) == F.kind \o "/" \o (IF F.nullable THEN "ptr" ELSE "val") \o "/" \o (IF F.embed # "" THEN (IF F.pmixed THEN "embedmixed" ELSE "embed") ELSE "-")
           \o "/" \o (IF F.oneof # "" THEN "oneof" ELSE "-") \o "/" \o F.cls
           \o (IF F.placeholder THEN "/placeholder" ELSE "")
+          \o (IF Len(F.gopath) > 1 THEN "/flat" ELSE "")
           \o (IF F.msg # NoMsg /\ SubOf(F).empty THEN "/emptymsg" ELSE "")
 
 V(c, F, trig) == [c |-> c, p |-> F.path, sig |-> Sig(F) \o (IF trig = "" THEN "" ELSE " " \o trig)]
@@ -371,6 +372,11 @@ Skeleton(tv) ==
 ---------------------------------------------------------------------------
 \* C06  malformed input becomes diagnostics, never a panic
 
+\* does the message (at any depth) contain fields promoted from an embedded message?
+RECURSIVE HasFlat(_)
+HasFlat(M) == \E i \in DOMAIN M.fields : Len(M.fields[i].gopath) > 1 \/ (M.fields[i].msg # NoMsg /\ HasFlat(SubOf(M.fields[i])))
+Unexpected(c, M, pth) == [c |-> c, p |-> pth, sig |-> "unexpected diagnostic" \o (IF HasFlat(M) THEN " (message has /flat fields)" ELSE "")]
+
 HasDiag(dg, kind, path) == \E i \in DOMAIN dg : dg[i].kind = kind /\ dg[i].path = path /\ dg[i].sev = "error"
 CountDiag(dg, kind, path) == Cardinality({i \in DOMAIN dg : dg[i].kind = kind /\ dg[i].path = path})
 
@@ -431,7 +437,7 @@ C06From(ctx) ==
   IN IF ctx.pn THEN {[c |-> "C06.from.nopanic", p |-> M.path, sig |-> PanicSig(M, ctx.pre)]}
      ELSE {V("C06.from.missing_once", F, "absent") : F \in {G \in miss : ~HasDiag(ctx.dg, "readMissing", G.path)}}
        \cup {V("C06.from.missing_once", F, "duplicate") : F \in {G \in miss : CountDiag(ctx.dg, "readMissing", G.path) > 1}}
-       \cup {VG("C06.from.missing_once", pth) : pth \in gotMissing \ missPaths}
+       \cup {Unexpected("C06.from.missing_once", M, pth) : pth \in gotMissing \ missPaths}
        \cup {V("C06.from.conversion", F, "") : F \in {G \in bad : ~HasDiag(ctx.dg, "readConversion", G.path)}}
        \cup copied
 
@@ -465,7 +471,7 @@ C06To(ctx) ==
   IN IF ctx.pn THEN {[c |-> "C06.to.nopanic", p |-> M.path, sig |-> PanicSig(M, ctx.obj)]}
      ELSE {V("C06.to.missing_once", F, "absent") : F \in {G \in miss : ~HasDiag(ctx.dg, "writeMissing", G.path)}}
        \cup {V("C06.to.missing_once", F, "duplicate") : F \in {G \in miss : CountDiag(ctx.dg, "writeMissing", G.path) > 1}}
-       \cup {VG("C06.to.missing_once", pth) : pth \in gotMissing \ missPaths}
+       \cup {Unexpected("C06.to.missing_once", M, pth) : pth \in gotMissing \ missPaths}
        \cup written
 
 ---------------------------------------------------------------------------
